@@ -533,6 +533,7 @@ func connBody(c *runner.Ctx) {
 		c.Class = "faulty"
 	}
 	w.latency = c.Choose(2, "latency-on") == 1
+	w.hang = h.faulty && c.Choose(3, "slow-backend") == 1
 	var modeDesc []string
 	for _, f := range computedFields {
 		m := fieldMode{mode: c.Choose(5, "mode")}
